@@ -80,12 +80,18 @@ def patterns(fam):
             (T(L('Rs')), L('Rs')), (L('Rs'), T(L('Rs'))), (L('Rs0'),), (L('Rs0'), L('k')),
             (L('k'), T(L('P')), L('P'), L('k2')), (T(L('P')), L('P'), T(L('P')), L('P')),
             (L('Tz'), L('D')), (L('Bd'), L('k')), (L('k'), T(L('Bd'))),
-        ]
+        ] + [p_ for c in ('list', 'dict', 'nest', 'tuple') for p_ in (
+            (('row', c, (L('A'), L('D'))), ('diag', c, (L('D', 1), L('k')))),
+            (('diag', c, (L('D'), L('k'))), ('col', c, (L('A'), L('D', 1)))),
+            (('diag', c, (L('D'), L('W'))), ('diag', c, (L('A'), L('D', 1)))),
+            (('row', c, (L('A'), L('D'))), ('col', c, (L('B'), L('D', 1)))),
+            (('row', c, (L('A'), L('D'))), ('diag', c, (L('D', 1), L('k'))), ('col', c, (L('B'), L('A', 1)))),
+        )]
     if fam == 'mat':
         return [
             (L('I'),), (L('k'), L('I'), L('D0')),
             (L('MvI'), L('Mv')), (L('Mv'), L('MvI')), (T(L('Mv')), L('Mv')), (L('Mv'), T(L('Mv'))),
-            (I(L('Mv')), L('Mv')), (L('Mn'), T(L('Mn'))), (L('Mn'), L('Mn', 1)),
+            (I(L('Mv')), L('Mv')), (L('Mn'), T(L('Mn'))), (L('Mn'), L('Mn', 1)), (L('M3c'), L('M3')), (T(L('M3')), L('M3')), (L('M3b'), L('M3')),
             (T(L('Rv')), L('Rv')), (L('Rv'), T(L('Rv'))), (T(L('Rs')), L('Rs')), (L('Rs'), T(L('Rs'))),
             (L('Rid'),), (L('Pn'),), (L('Rid'), L('Pn'), L('I')),
             (T(L('Pe')), L('Pe')), (L('Pe'), T(L('Pe'))), (T(L('P0')), L('P0')), (L('P0'), T(L('P0'))),
